@@ -7,7 +7,7 @@ import (
 
 // DispatchForms are the ways a function body can transfer control to a target function (C12, C18).
 var DispatchForms = []string{"static", "fvar", "ffield", "fslice", "fmap", "closure", "mvalue", "mexpr", "iface", "ifacePtr", "embedded",
-	"generic", "deferred", "go", "goClosure", "fparam", "deferArg", "goArg", "ifaceWiden", "globalInit", "retFunc", "chanFunc"}
+	"generic", "deferred", "go", "goClosure", "fparam", "deferArg", "goArg", "ifaceWiden", "globalInit", "retFunc", "chanFunc", "ifaceTwo", "ifaceShared"}
 
 type dform struct {
 	decls []string
@@ -104,6 +104,20 @@ func dispatch(form string, n int, target string) dform {
 		s("ch%d := make(chan func(), 1)", n)
 		s("ch%d <- %s", n, target)
 		s("(<-ch%d)()", n)
+	case "ifaceTwo":
+		// the same concrete type converted first to the narrow interface I, then to the wider IW; W is only ever called
+		// through IW
+		d("type TW%d struct{}\nfunc (TW%d) M() {\n"+fmt.Sprintf(enter, fmt.Sprintf("TW%d.M", n))+"}\nfunc (TW%d) W() {\n"+
+			fmt.Sprintf(enter, fmt.Sprintf("TW%d.W", n))+"\t%s()\n}", n, n, n, target)
+		s("var t%d I = TW%d{}", n, n)
+		s("t%d.M()", n)
+		s("var u%d IW = TW%d{}", n, n)
+		s("u%d.W()", n)
+	case "ifaceShared":
+		// one concrete type shared by all hops, converted to a different single-method interface at every hop
+		d("type IS%d interface{ M%d() }\nfunc (SH) M%d() {\n"+fmt.Sprintf(enter, fmt.Sprintf("SH.M%d", n))+"\t%s()\n}", n, n, n, target)
+		s("var sh%d IS%d = SH{}", n, n)
+		s("sh%d.M%d()", n, n)
 	default:
 		panic("form " + form)
 	}
@@ -124,6 +138,7 @@ func DispatchProgram(forms []string) Subject {
 	var sb strings.Builder
 	sb.WriteString(shapeHeader)
 	sb.WriteString("type I interface{ M() }\ntype IW interface {\n\tM()\n\tW()\n}\n")
+	sb.WriteString("type SH struct{}\n")
 	sb.WriteString("func Other() {\n" + fmt.Sprintf(enter, "Other") + "}\n")
 	for _, d := range decls {
 		sb.WriteString(d + "\n")
